@@ -134,7 +134,7 @@ def finish(ctx: Ctx, explanation: str, level: str, t0: float, error: str | None 
             continue
         seen.add(k["key"])
         print(f"KNOWN-FINDING: property={ctx.prop} {k['key']} :: {k['what']}")
-    evdir = os.path.join(VERIF, "evidence")
+    evdir = os.environ.get("VERIF_EVIDENCE_DIR") or os.path.join(VERIF, "evidence")
     os.makedirs(evdir, exist_ok=True)
     replay = os.path.join(evdir, f"{ctx.prop}.violation.json")
     if new:
